@@ -22,7 +22,7 @@ Supported subset (what the generator stays inside; found by reading the grammar 
  * first point of every wire explicit.
 """
 import json, random, re
-from . import common
+from . import common, textmut
 from .circ import pct
 
 PID = 'C20'
@@ -690,6 +690,132 @@ def first_diff(obs, exp, path=()):
 
 
 # ----------------------------------------------------------------------------------------------------------------
+# text level: the grammar itself (Model/DefText.lean through driver `defparse`) against lark on the same texts
+_lark = None
+
+
+def lark_sexp(text):
+    """the parse tree of the REAL grammar with all tokens kept, as `rule[child,..]` with percent-encoded token texts;
+    None when lark rejects"""
+    global _lark
+    from lark import Lark, Token
+    from kyupy import def_file
+    if _lark is None or _lark[0] is not def_file.GRAMMAR:
+        _lark = (def_file.GRAMMAR, Lark(def_file.GRAMMAR, parser='lalr', keep_all_tokens=True))
+    def sexp(t):
+        if isinstance(t, Token): return textmut.pct(str(t))
+        return f"{t.data}[{','.join(sexp(c) for c in t.children)}]"
+    try:
+        return sexp(_lark[1].parse(text))
+    except Exception:
+        return None
+
+
+def real_parse_status(text):
+    from kyupy import def_file
+    try:
+        def_file.parse(text)
+        return 'ok'
+    except Exception:
+        return 'raise'
+
+
+TEXT_ALPHABET = '();+-*# \n\t"0123456789.eNSFWXYab\\'
+TEXT_FRAGMENTS = [' ', '\n', ' # c\n', '#c\n', ' ;', ' ( 1 2 )', ' ( * 5 3 )', ' NEW m1', ' + ROUTED m1 ( 0 0 ) ( 5 * )', ' via1', ' N', ' FS ',
+                  ' DO 2 BY 2 STEP 1 1', ' END', ' + USE X', ' TAPER', ' TAPERRULE r', ' STYLE 1', ' - n ;', ' ( a b )', ' + SHAPE RING', '1.5',
+                  '1e3', ' +', 'NEW', 'DO', '(', ')', ';']
+HAND_TEXTS = ['', ' ', '#x', '# x\n#y', ' #x\nVERSION 5.8 ;', 'VERSION 5.8;', 'VERSION 5.8 ;', 'VERSION 5.8 ;#c', 'VERSION 5.8 ; #c', 'VERSION #5 ;', 'VERSION\t+5 ;',
+         'DIVIDERCHAR "/" ;', 'DIVIDERCHAR "a\\"b" ;', 'DIVIDERCHAR "a\\\\" ;', 'DIVIDERCHAR "a\\\\\\"b" ;x', 'DIVIDERCHAR "" ;', 'DIVIDERCHAR "\\" ;', 'BUSBITCHARS "[\n]" ;', 'DIVIDERCHAR"/";',
+         'DESIGN t ; END DESIGN', 'DESIGN t ; END DESIGN\n', 'DESIGNt ;ENDDESIGN', 'DESIGN t ; END DESIGN VERSION 1 ;', 'DESIGN t ; END DESIGN DESIGN u ; END DESIGN',
+         'DESIGN t ; UNITS DISTANCE MICRONS 1000 ; END DESIGN', 'DESIGN t ; UNITS DISTANCE MICRONS 1000; END DESIGN', 'DESIGN t ; UNITS DISTANCE MICRONS 1.5 ; END DESIGN',
+         'DESIGN t ; UNITS DISTANCE MICRONS 1e3 ; END DESIGN', 'DESIGN t ; UNITS DISTANCE MICRONS 1e ; END DESIGN', 'DESIGN t ; UNITS DISTANCE MICRONS .5e-3x ; END DESIGN',
+         'DESIGN t ; DIEAREA ( 0 0 ) ( 10 10 ) ; END DESIGN', 'DESIGN t ; DIEAREA (0 0) (10 10) ; END DESIGN', 'DESIGN t ; DIEAREA ( 0 0 )( 10 10 ) ; END DESIGN', 'DESIGN t ; DIEAREA ( 0 0 ) ( 10 10 ); END DESIGN',
+         'DESIGN t ; DIEAREA ( 0 0 ) ( 10 10 ) ;END DESIGN', 'DESIGN t ; DIEAREA ( 0 0 ) NEW ; END DESIGN', 'DESIGN t ; DIEAREA ( * 0 5 ) ( 10 * ) ; END DESIGN', 'DESIGN t ; DIEAREA ( 0 0 5 6 ) ; END DESIGN',
+         'DESIGN t ; ROW r s 0 0 N DO 2 BY 1 STEP 3 0 ; END DESIGN', 'DESIGN t ; ROW r s 0 0 N DO 2 BY 1 STEP +3 -0 ; END DESIGN', 'DESIGN t ; ROW r s 0 0 N DO 2 BY 1 STEP 3 0; END DESIGN', 'DESIGN t ; ROW r s 0 0 N DO 2 BY 1 STEP 3 0 NEW END DESIGN',
+         'DESIGN t ; TRACKS X 0 DO 3 STEP 1 LAYER m ; END DESIGN', 'DESIGN t ; TRACKS Z 0 DO 3 STEP 1 LAYER m ; END DESIGN', 'DESIGN t ; TRACKS Y0DO3STEP1LAYER m ; END DESIGN',
+         'DESIGN t ; VIAS 1 ; - v + ROWCOL 1 2 + LAYERS a b c + VIARULE x + PATTERN p + CUTSIZE 1 2 + CUTSPACING 3 4 + ENCLOSURE 1 2 3 4 ; END VIAS END DESIGN', 'DESIGN t ; VIAS 1 ; - v + ROWCOL 1.5 2 ; END VIAS END DESIGN',
+         'DESIGN t ; VIAS 1; - v; END VIAS END DESIGN', 'DESIGN t ; VIAS 1 ; - v ; END VIAS END DESIGN', 'DESIGN t ; VIAS 1 ; -v ; END VIAS END DESIGN', 'DESIGN t ; VIAS 1 ; - v +ROWCOL 1 2 ; END VIAS END DESIGN',
+         'DESIGN t ; COMPONENTS 1 ; - u k + PLACED ( 1 2 ) N ; END COMPONENTS END DESIGN', 'DESIGN t ; COMPONENTS 1 ; - u k + PLACED ( 1 2 ) NEW ; END COMPONENTS END DESIGN', 'DESIGN t ; COMPONENTS 1 ; - u k + PLACED ( 1 2 ) ; ; END COMPONENTS END DESIGN',
+         'DESIGN t ; COMPONENTS 1 ; - u k + PLACED ( 1 2 ) ( ; END COMPONENTS END DESIGN', 'DESIGN t ; COMPONENTS 1 ; - u k + PLACED ( 1 2 ) (x ; END COMPONENTS END DESIGN', 'DESIGN t ; COMPONENTS 1 ; - u k + PLACED ( 1 2 ) +N ; END COMPONENTS END DESIGN',
+         'DESIGN t ; PINS 1 ; - p + NET n + SPECIAL + DIRECTION INPUT + USE SIGNAL + PORT + LAYER m ( 0 0 ) ( 1 1 ) + PLACED ( 5 5 ) N ; END PINS END DESIGN', 'DESIGN t ; PINS 1 ; - p + LAYER m ( 0 0 ) ( 1 1 ) ; END PINS END DESIGN',
+         'DESIGN t ; PINS 1 ; - p + LAYER m ( 0 0 ) ( 1 1 ) + PORT ; END PINS END DESIGN', 'DESIGN t ; PINS 1 ; - p + LAYER m ( 0 0 ) (1 1 ) ; END PINS END DESIGN', 'DESIGN t ; PINS 1 ; - p + PLACED ( 5 5 ) N; END PINS END DESIGN',
+         'DESIGN t ; NETS 1 ; - n ( a b ) + USE S + ROUTED m1 ( 0 0 ) ( 5 * ) v1 N ( * 7 ) NEW m2 TAPER ( 1 1 ) v2 + FIXED m3 TAPERRULE r STYLE 2 ( 1 1 ) ( 2 2 ) ; END NETS END DESIGN',
+         'DESIGN t ; NETS 1 ; - n + ROUTED m1 ( 0 0 ) v1 N\n; END NETS END DESIGN', 'DESIGN t ; NETS 1 ; - n + ROUTED m1 ( 0 0 ) v1 N; END NETS END DESIGN', 'DESIGN t ; NETS 1 ; - n + ROUTED m1 ( 0 0 ) N N ; END NETS END DESIGN',
+         'DESIGN t ; NETS 1 ; - n + ROUTED m1 ( 0 0 ) N1 N ; END NETS END DESIGN', 'DESIGN t ; NETS 1 ; - n + ROUTED m1 ( 0 0 ) v FN # c\n ; END NETS END DESIGN', 'DESIGN t ; NETS 1 ; - n + ROUTED m1 ( 0 0 ) v F ; END NETS END DESIGN',
+         'DESIGN t ; NETS 1 ; - n + ROUTED m1 ( 0 0 ) NEWVIA NEW m2 ( 1 1 ) ( 2 2 ) ; END NETS END DESIGN', 'DESIGN t ; NETS 1 ; - n + ROUTED m1 ( 0 0 ) ; END NETS END DESIGN', 'DESIGN t ; NETS 1 ; - n + ROUTED m1 ( 0 0 ) (1 2 ) ; END NETS END DESIGN',
+         'DESIGN t ; NETS 1 ; - n + ROUTED m1 ( 0 0 ) ( 1 2 ) ( a b ) ; END NETS END DESIGN', 'DESIGN t ; NETS 1 ; - n + ROUTED m1 TAPERx ( 0 0 ) ( 1 2 ) ; END NETS END DESIGN', 'DESIGN t ; NETS 1 ; - n + ROUTED m1 TAPERRULEx ( 0 0 ) ( 1 2 ) ; END NETS END DESIGN',
+         'DESIGN t ; NETS 1 ; - n + ROUTED m1 STYLE 1 ( 0 0 ) ( 1 2 ) + NOSHIELD m2 ( 0 0 ) v ; END NETS END DESIGN', 'DESIGN t ; NETS 1 ; - n +ROUTED m1 ( 0 0 ) ( 1 2 ) +USE x ; END NETS END DESIGN', 'DESIGN t ; NETS 1 ; - n + ROUTED m1 ( 0 0 ) ( 1 2 )+ USE x ; END NETS END DESIGN',
+         'DESIGN t ; NETS 1 ; - n + ROUTED m1 ( 0 0 ) v+ USE x ; END NETS END DESIGN', 'DESIGN t ; NETS 1 ; - n + NONDEFAULTRULE r + NOSHIELDx ( 0 0 ) v ; END NETS END DESIGN',
+         'DESIGN t ; SPECIALNETS 1 ; - n ( * VDD ) + ROUTED m1 100 + SHAPE RING + STYLE 2 ( 0 0 ) v1 DO 2 BY 3 STEP 10 -20 ( 5 * ) v2 NEW m2 5 ( 1 1 ) DO + USE POWER ; END SPECIALNETS END DESIGN',
+         'DESIGN t ; SPECIALNETS 1 ; - n + ROUTED m1 100 ( 0 0 ) v1 DO 2 BY 3 STEP 1.5 2 ; END SPECIALNETS END DESIGN', 'DESIGN t ; SPECIALNETS 1 ; - n + ROUTED m1 1e2 ( 0 0 ) v1 DOx ; END SPECIALNETS END DESIGN', 'DESIGN t ; SPECIALNETS 1 ; - n + NOSHIELD m1 1 ( 0 0 ) v1 ; END SPECIALNETS END DESIGN',
+         'DESIGN t ; SPECIALNETS 1 ; - n + ROUTED m1 100 ( 0 0 ) v1 N ; END SPECIALNETS END DESIGN',
+         'DESIGN t ; PROPERTYDEFINITIONS COMPONENTPIN a b ; END PROPERTYDEFINITIONS NONDEFAULTRULES 1 ; - r + HARDSPACING + LAYER m WIDTH 1 SPACING 2 + VIA v ; END NONDEFAULTRULES PINPROPERTIES 1 ; - PIN p + PROPERTY a "b c" ; END PINPROPERTIES END DESIGN',
+         'DESIGN t ; NONDEFAULTRULES 1 ; END NONDEFAULTRULES END DESIGN', 'DESIGN t ; PINS 2 ; END PINSEND DESIGN', 'DESIGN t ; PINPROPERTIES 0 ; END PINPROPERTIES END DESIGN', 'DESIGN t ; PINSx 0 ; END PINS END DESIGN']
+
+
+def mutate_text(rng, t):
+    m = textmut.mutate(rng, t, TEXT_ALPHABET, TEXT_FRAGMENTS, ' \n')
+    if rng.random() < 0.25: m = textmut.mutate(rng, m, TEXT_ALPHABET, TEXT_FRAGMENTS, ' \n')
+    return m
+
+
+def real_routed(text):
+    """{'S:name' | 'N:name': enc_net(routed)} of the real parse result (the DefWire records of every net)"""
+    from kyupy import def_file
+    d = def_file.parse(text)
+    out = {}
+    for tag, table in (('S:', d.specialnets), ('N:', d.nets)):
+        for name, dnet in table.items():
+            v = enc_net(getattr(dnet, 'routed', None))
+            out[tag + pct(name)] = '.' if v == '~' else v
+    return out
+
+
+def text_level(ck, texts, origin):
+    """same parse tree (every token, every rule) or both reject; same accept/raise of the transformer; for generated
+    texts also the hand-over: the ROUTED wires of every net as the routing model `KV.Def` receives them"""
+    outs = textmut.drv([f'defparse {textmut.pct(t)}' for t in texts])
+    for t, o in zip(texts, outs):
+        lt = lark_sexp(t)
+        exp = 'syntax' if lt is None else real_parse_status(t) + ' ' + lt
+        f = o.split(' ')
+        got = o if len(f) < 3 else f[0] + ' ' + f[1]
+        ck.case(key=('text', t), nontrivial=lt is not None, tag=[f'text:{origin}', 'text-result:' + exp.split(' ')[0]])
+        if got != exp:
+            i = next((k for k in range(min(len(got), len(exp))) if got[k] != exp[k]), min(len(got), len(exp)))
+            ck.broken_tie(f'DEF text model (grammar of def_file.py) vs lark, {origin} text',
+                          f'real {exp[:60]} .. {exp[max(0, i - 80):i + 80]} != model {got[:60]} .. {got[max(0, i - 80):i + 80]}', inp={'def_text': t})
+            continue
+        if origin == 'generated' and f[0] == 'ok' and len(f) == 3:
+            norm = lambda v: '.' if v == '~' else v     # "no ROUTED statement": absent attribute (~) or empty list (.)
+            model = {} if f[2] == '-' else {k: norm(v) for k, v in (x.split('=', 1) for x in f[2].split('!'))}
+            try:
+                real = real_routed(t)
+            except Exception as ex:
+                ck.broken_tie('DEF text model hand-over', f'{type(ex).__name__}: {ex}'[:300], inp={'def_text': t}); continue
+            ck.hist['text-nets-compared'] += len(real)
+            if model != real:
+                k = next((k for k in list(real) + list(model) if real.get(k) != model.get(k)), None)
+                ck.broken_tie('DEF text model hand-over (ROUTED wires of a net as DefWire records)',
+                              f'{k}: real {str(real.get(k))[:200]} != model {str(model.get(k))[:200]}', inp={'def_text': t})
+
+
+def text_stream(ck, scale):
+    rng = ck.rng
+    try:
+        text_level(ck, HAND_TEXTS, 'hand-written')
+        text_level(ck, [mutate_text(rng, t) for t in HAND_TEXTS for _ in range(2 * scale)], 'mutated')
+        for it in range(40 * scale):
+            ast = gen_ast(rng)
+            if ast['comments'] and rng.random() < 0.25: ast['comment_after_orient'] = True
+            t = render(ast)
+            text_level(ck, [t], 'generated')
+            text_level(ck, [mutate_text(rng, t) for _ in range(4)], 'mutated')
+    except Exception as ex:
+        ck.broken_tie('DEF text model correspondence', f'{type(ex).__name__}: {ex}'[:300])
+
+
+# ----------------------------------------------------------------------------------------------------------------
 # cases
 def check_file(case):
     """-> (findings, corr_bad, stats). findings: (cls, what, observed, expected, where)"""
@@ -937,9 +1063,10 @@ def theorems():
 def run(ck):
     ck.prove([], TARGETS, theorems())
     oracle(ck, ck.scale)
+    text_stream(ck, ck.scale)
     if ck.broken and not ck.violations:
         oracle(ck, ck.scale * 8)
-    ck.assumptions += ['lark (LALR tables, contextual lexer) and the transformer callbacks are exercised by the differential run, not modelled',
+    ck.assumptions += ['grammar/lexer of def_file.py: modelled (Model/DefText.lean, round-trip theorem) and compared with lark on generated, hand-written and mutated texts (parse tree with all tokens); that lark implements the grammar as the model reads it is checked there, not proved; the transformer callbacks are exercised by the attribute oracle',
                        'ground truth of wires/vias: backwards search for the most recent explicit coordinate; array positions as a set per DO statement',
                        'wires/vias list the ROUTED wiring only (FIXED/COVER/NOSHIELD wiring is compared as raw DefWire records)',
                        'demanded listing for a regular-net wire: width None; for a net without + ROUTED: empty listings']
